@@ -562,3 +562,127 @@ def c02_cases(tier, seed):
         c.tag = "c02:" + c.tag
         out.append(c)
     return out
+
+
+# =========================================================================================== C18
+FMT_VOCAB = {
+    "number": [("grouping_strategy", ["auto", "never", "always", "min2"])],
+    "currency": [("width", ["short", "narrow"]), ("currency_code", ["USD", "EUR", "JPY"])],
+    "date": [("date_length", ["full", "long", "medium", "short"])],
+    "time": [("time_length", ["full", "long", "medium", "short"])],
+    "datetime": [("date_length", ["full", "long", "medium", "short"]), ("time_length", ["full", "long", "medium", "short"])],
+    "list": [("list_type", ["and", "or", "unit"]), ("list_style", ["wide", "short", "narrow"])],
+}
+
+
+def fmt_sources(name, args, variant):
+    """Source text variants of `name(args)`: (src, args as the documented grammar reads them)."""
+    if args is None:
+        return [name, " " + name + " ", name + "()"][variant % 3], ([] if variant % 3 == 2 else None)
+    if variant % 4 == 0:
+        src = name + "(" + ";".join("%s:%s" % (k, v) for k, v in args) + ")"
+    elif variant % 4 == 1:
+        src = " " + name + " ( " + " ; ".join(" %s : %s " % (k, v) for k, v in args) + " ) "
+    elif variant % 4 == 2:
+        src = name + "(" + "; ".join("%s: %s" % (k, v) for k, v in reversed(args)) + ";)"
+    else:
+        src = name + "(" + "; ".join("%s: %s" % (k, v) for k, v in args) + "; unknown_arg: whatever)"
+    return src, list(args)
+
+
+def c18_cases(tier, seed):
+    rng = random.Random(18000 + seed)
+    cases = []
+    combos = []
+    for name, params in FMT_VOCAB.items():
+        combos.append((name, None))
+        value_lists = [[(p, v) for v in vals] + [None] for p, vals in params]
+        for choice in itertools.product(*value_lists):
+            args = [c for c in choice if c is not None]
+            combos.append((name, args))
+        # unrecognised option values fall back to the default
+        combos.append((name, [(params[0][0], "bogus")]))
+        combos.append((name, [(params[0][0], params[0][1][-1].upper())]))
+    if tier == "quick":
+        rng.shuffle(combos)
+        combos = combos[:60]
+    per = 6
+    for pi in range(0, len(combos), per):
+        chunk = combos[pi:pi + per]
+        locales = [["en", "fr"], ["en", "ar", "ja"], ["fr", "en"]][(pi // per) % 3]
+        default = "en"
+        files = {l: {} for l in locales}
+        roles = {}
+        for k, (name, args) in enumerate(chunk):
+            key = "f%d" % k
+            for li, l in enumerate(locales):
+                src, read_args = fmt_sources(name, args, pi + k + li)
+                fmt = {"name": name, "args": read_args, "src": src}
+                if li % 2 == 0:
+                    files[l][key] = S(l + " before ", V("v", fmt), " after")
+                else:
+                    files[l][key] = S(Cp("b", V("v", fmt)), " ", V("other"))
+            roles[(None, (key,))] = "formatter:%s" % name
+        cases.append(Case(Project(default, locales, files, style=STYLES[(pi // per) % len(STYLES)]), "c18_formatters/%d" % (pi // per), roles=roles))
+    # same variable formatted two ways in one key, and formatted inside ranges / plurals
+    files = {"en": {
+        "two": S(V("n", {"name": "number", "args": None}), " / ", V("n", {"name": "number", "args": [("grouping_strategy", "never")]})),
+        "in_range": RANGE("u32", [([("exact", 0)], S("none")), ("fallback", S(V("d", {"name": "date", "args": [("date_length", "long")]}), " x ", V("count")))]),
+        "in_plural": PLURAL("cardinal", {"one": S(V("l", {"name": "list", "args": [("list_type", "or")]})), "other": S(V("l", {"name": "list", "args": None}), V("count"))}),
+        "via_fk": S(FK("two"), " ", FK("in_range", {"count": NUM(3)})),
+    }}
+    cases.append(Case(Project("en", ["en"], files), "c18_nested/0", roles={"*": "formatter_nested"}))
+    bad = Project("en", ["en"], {"en": {"k": S(V("v", {"name": "nosuchformatter", "args": None}))}})
+    cases.append(Case(bad, "c18_errors/unknown_formatter", expect="error", roles={"*": "unknown_formatter"}))
+    return cases
+
+
+# =========================================================================================== C08
+def c08_cases(tier, seed):
+    rng = random.Random(8000 + seed)
+    cases = []
+    kinds = ["str", "interp", "comp", "range", "plural", "num", "fk_rename", "fk_fixed", "null"]
+
+    def value(kind, l, k, ty):
+        m = "%s.%s" % (l, k)
+        if kind == "str":
+            return S(m + " plain")
+        if kind == "interp":
+            return S(m + " ", V("a_" + l), " ", V("shared"))
+        if kind == "comp":
+            return S(Cp("c_" + l, m, V("shared")), Cp("both", "x"))
+        if kind == "range":
+            return RANGE(ty, [([("exact", 1)], S(m + " one ", V("only_in_branch_" + l))), ("fallback", S(m + " many ", V("count")))])
+        if kind == "plural":
+            return PLURAL("cardinal", {"one": S(m + " one"), "other": S(m + " other ", V("count"), V("p_" + l))})
+        if kind == "num":
+            return NUM(12)
+        if kind == "fk_rename":
+            return S(FK("tr_%s" % (ty or "i32"), {"count": S(V("renamed"))}), " ", V("z"))
+        if kind == "fk_fixed":
+            return S(FK("tr_%s" % (ty or "i32"), {"count": NUM(1.0 if ty in ("f32", "f64") else 1), "who": S("fixed")}))
+        return NULL()
+
+    combos = list(itertools.product(kinds[:-1], kinds, kinds))
+    rng.shuffle(combos)
+    combos = [c for c in combos if not ("range" in c and "plural" in c)]      # mixing them on one count is an error (below)
+    n = 40 if tier == "quick" else 300
+    per = 5
+    types = [None, "u8", "i64", "u16", "f32"]
+    for pi in range(0, n, per):
+        locales = ["en", "fr", "de"]
+        ty = types[(pi // per) % len(types)]
+        files = {l: {"tr_%s" % (ty or "i32"): RANGE(ty, [([("exact", 1)], S(l + " tr one ", V("who"))), ("fallback", S(l + " tr ", V("count"), V("who")))])} for l in locales}
+        roles = {}
+        for k, combo in enumerate(combos[pi:pi + per]):
+            key = "k%d" % k
+            for l, kind in zip(locales, combo):
+                files[l][key] = value(kind, l, key, ty)
+            roles[(None, (key,))] = "mix:" + "/".join(combo)
+        cases.append(Case(Project("en", locales, files, inherits={"de": "fr"} if pi % 2 else None), "c08_mix/%d" % (pi // per), roles=roles))
+    # conflicts that must be rejected
+    r1 = lambda ty: RANGE(ty, [([("exact", 1)], S("a")), ("fallback", S("b"))])
+    cases.append(Case(Project("en", ["en", "fr"], {"en": {"k": r1("u8")}, "fr": {"k": r1("i16")}}), "c08_errors/range_type_conflict", expect="error", roles={"*": "range_type_conflict"}))
+    cases.append(Case(Project("en", ["en", "fr"], {"en": {"k": r1("u8")}, "fr": {"k": PLURAL("cardinal", {"one": S("x"), "other": S("y")})}}),
+                      "c08_errors/range_and_plural", expect="error", roles={"*": "range_and_plural"}))
+    return cases
